@@ -1,13 +1,13 @@
-/* print_string_ptr, bounded unit (B): every byte string of length <= PSP_N (no NUL inside); ensure() replaced by its callee view
- * (reservation = separate object of exactly needed+1 bytes, so any write outside it fails a pointer obligation).
- * The output is compared with a reference encoder written from RFC 8259 section 7. */
+/* print_string_ptr, bounded unit (B): every byte string of length <= PSP_N (no NUL inside), printed with the REAL ensure() into a caller
+ * buffer (noalloc) of concrete object size and symbolic usable length n: (C09) nothing at or beyond index n is written, success exactly
+ * when the text + terminator fit, (C05/C04) the text is the RFC 8259 encoding computed by a reference encoder. */
 #ifndef PSP_N
 #define PSP_N 5
 #endif
 #define VF_BUILTIN_MEMCPY
 #include "cjson_tu.h"
-
-static unsigned char ref[6 * PSP_N + 4];
+#define OBJ (6 * PSP_N + 6)
+static unsigned char ref[OBJ];
 static size_t ref_encode(const unsigned char *s, size_t len)
 {
     const char *hx = "0123456789abcdef";
@@ -34,34 +34,35 @@ static size_t ref_encode(const unsigned char *s, size_t len)
 void h_print_string_ptr_b(void)
 {
     unsigned char *in = malloc(PSP_N + 1);
-    printbuffer *p = malloc(sizeof(printbuffer));
-    size_t len = nondet_size_t(), i, want, old_off;
+    unsigned char *buf = malloc(OBJ);
+    printbuffer p;
+    unsigned char snap[OBJ];
+    size_t len = nondet_size_t(), n = nondet_size_t(), i, want;
+    _Bool null_input = nondet_bool();
     cJSON_bool r;
-    __CPROVER_assume(in != NULL && p != NULL && len <= PSP_N);
+    __CPROVER_assume(in != NULL && buf != NULL && len <= PSP_N && n <= OBJ);
     for (i = 0; i < PSP_N + 1; i++) { if (i < len) { __CPROVER_assume(in[i] != 0); } else { in[i] = 0; } }
-    VF_INIT(); g_ens_calls = 0;
-    old_off = p->offset;
-    want = ref_encode(in, len);
+    for (i = 0; i < OBJ; i++) { snap[i] = buf[i]; }
+    VF_INIT();
+    p.buffer = buf; p.length = n; p.offset = 0; p.depth = 0; p.noalloc = 1; p.format = nondet_bool();
+    p.hooks.allocate = vf_alloc; p.hooks.deallocate = vf_free; p.hooks.reallocate = NULL;
+    if (null_input) { ref[0] = '\"'; ref[1] = '\"'; want = 2; } else { want = ref_encode(in, len); }
 
-    r = print_string_ptr(nondet_bool() ? in : NULL, p);
+    r = print_string_ptr(null_input ? NULL : in, &p);
 
-    if (g_ens_calls == 1 && r)
+    /* the writer reserves text + terminator and ensure() keeps one more byte in hand: success needs want + 2 <= n, i.e. at most one byte of slack
+     * (well inside the five bytes the property allows), and is monotone in n */
+    __CPROVER_assert((r != 0) == (want + 2 <= n), "C09 succeeds exactly when text + terminator + 1 spare byte fit in [0, n) (monotone in n)");
+    for (i = 0; i < OBJ; i++) { if (i >= n || (!r)) { __CPROVER_assert(buf[i] == snap[i], "C09 nothing at or beyond index n is written (and nothing at all on failure)"); } }
+    if (r)
     {
-        if (g_ens_needed == 3 && len > 0)
-        {   /* NULL input prints as the empty string */
-            __CPROVER_assert(g_ens_win[0] == '\"' && g_ens_win[1] == '\"' && g_ens_win[2] == 0, "C05 NULL string printed as \"\"");
-        }
-        else
-        {
-            __CPROVER_assert(g_ens_needed == want + 1, "C09 C05 reservation is exactly text + terminator");
-            for (i = 0; i < 6 * PSP_N + 2; i++) { if (i < want) { __CPROVER_assert(g_ens_win[i] == ref[i], "C05 C04 escaped text is exactly the RFC 8259 encoding"); } }
-            __CPROVER_assert(g_ens_win[want] == 0, "C05 C09 terminator right behind the closing quote");
-        }
-        __CPROVER_assert(p->offset == old_off, "C09 offset left to update_offset");
-        VF_COVER(want == PSP_N + 2);
-        VF_COVER(want == 6 * PSP_N + 2);
-        VF_COVER(want > PSP_N + 3 && want < 6 * PSP_N);
+        for (i = 0; i < OBJ; i++) { if (i < want) { __CPROVER_assert(buf[i] == ref[i], "C05 C04 escaped text is exactly the RFC 8259 encoding"); } }
+        __CPROVER_assert(buf[want] == 0, "C05 C09 terminator right behind the closing quote");
+        for (i = 0; i < OBJ; i++) { if (i > want) { __CPROVER_assert(buf[i] == snap[i], "C09 nothing behind the terminator is written"); } }
     }
-    __CPROVER_assert(g_ens_calls == 1, "C09 exactly one reservation");
-    __CPROVER_assert((r != 0) == g_ens_ok, "C08 C09 false exactly when the reservation fails");
+    __CPROVER_assert(p.offset == 0 && p.buffer == buf && p.length == n, "C09 buffer never replaced; offset left to update_offset");
+    __CPROVER_assert(g_hook_allocs == 0 && g_hook_frees == 0, "C09 C14 no allocator call in noalloc mode");
+    VF_COVER(r && want == PSP_N + 2);
+    VF_COVER(r && want == 6 * PSP_N + 2);
+    VF_COVER(!r && n > 3);
 }
